@@ -9,6 +9,8 @@
    scan; they are observed by the history oracle (harness/oracles2.py, oracle_C17). *)
 From Coq Require Import String List Bool.
 From FT.gen Require Import Effects.
+From FT.gen Require ApiGen.
+From FT.proofs Require ApiGenEq.
 Import ListNotations.
 Open Scope string_scope.
 
@@ -43,6 +45,60 @@ Theorem C17_read_only_operations_listed :
      "_base.BaseGrid2D.zaxis"; "_base.BaseGrid3D.yaxis"] = true.
 Proof. vm_compute. reflexivity. Qed.
 
+(* The package surface, extracted by tools/py2coq/apigen.py on every run (gen/ApiGen.v; anything else at module level - a
+   call, a monkeypatch assignment, a try/except, a decorator, a new module file that no translator reads - is REJECTED):
+   the package consists of exactly these 19 files, the __init__ files only import and list names, every exported name
+   comes from its expected module, the two thread helpers only forward to Numba, and _base/_grid/_solver contain only
+   their imports and the known classes (no module-level state).  Proofs in proofs/ApiGenEq.v. *)
+Theorem C17_package_is_exactly_these_files :
+  ApiGen.pkg_files
+  = ["__about__.py"; "__init__.py"; "_base.py"; "_common.py";
+     "_fteik/__init__.py"; "_fteik/_common.py"; "_fteik/_fteik2d.py"; "_fteik/_fteik3d.py"; "_fteik/_ray2d.py";
+     "_fteik/_ray3d.py"; "_grid.py"; "_helpers.py";
+     "_interp/__init__.py"; "_interp/_interp2d.py"; "_interp/_interp3d.py"; "_interp/_vinterp2d.py";
+     "_interp/_vinterp3d.py"; "_io.py"; "_solver.py"]
+  /\ length ApiGen.pkg_files = 19%nat.
+Proof. exact ApiGenEq.gen_pkg_files. Qed.
+
+Theorem C17_thread_helpers_only_forward_to_numba :
+  ApiGen.helpers_imports = [("import", ["numba"])]
+  /\ ApiGen.helpers_funcs = [("get_num_threads", ([], "return numba.get_num_threads()"));
+                             ("set_num_threads", (["n"], "numba.set_num_threads(n)"))].
+Proof. exact ApiGenEq.gen_helpers. Qed.
+
+Theorem C17_package_exports :
+  ApiGen.pkg_init_all
+  = ["Eikonal2D"; "Eikonal3D"; "Grid2D"; "Grid3D"; "TraveltimeGrid2D"; "TraveltimeGrid3D"; "get_num_threads";
+     "set_num_threads"; "grid_to_meshio"; "ray_to_meshio"; "__version__"]
+  /\ ApiGen.pkg_init_imports
+     = [(".__about__", ["__version__"]); ("._grid", ["Grid2D"; "Grid3D"; "TraveltimeGrid2D"; "TraveltimeGrid3D"]);
+        ("._helpers", ["get_num_threads"; "set_num_threads"]); ("._io", ["grid_to_meshio"; "ray_to_meshio"]);
+        ("._solver", ["Eikonal2D"; "Eikonal3D"])]
+  /\ map (ApiGenEq.imported_from ApiGen.pkg_init_imports) ApiGen.pkg_init_all
+     = [Some "._solver"; Some "._solver"; Some "._grid"; Some "._grid"; Some "._grid"; Some "._grid";
+        Some "._helpers"; Some "._helpers"; Some "._io"; Some "._io"; Some ".__about__"]
+  /\ map fst ApiGen.pkg_about = ["__version__"].
+Proof. exact ApiGenEq.gen_pkg_exports. Qed.
+
+Theorem C17_module_surface :
+  ApiGen.mod_base_imports
+  = [("abc", ["ABC"]); ("import", ["numpy as np"]); ("scipy.interpolate", ["RegularGridInterpolator"]);
+     ("scipy.ndimage", ["gaussian_filter"]); ("._interp", ["interp2d"; "interp3d"])]
+  /\ ApiGen.mod_base_classes = ["BaseGrid"; "BaseGrid2D"; "BaseGrid3D"; "BaseTraveltime"]
+  /\ ApiGen.mod_grid_imports
+     = [("import", ["numpy as np"]); ("._base", ["BaseGrid2D"; "BaseGrid3D"; "BaseTraveltime"]);
+        ("._fteik", ["ray2d"; "ray3d"]); ("._interp", ["vinterp2d"; "vinterp3d"])]
+  /\ ApiGen.mod_grid_classes = ["Grid2D"; "Grid3D"; "TraveltimeGrid2D"; "TraveltimeGrid3D"]
+  /\ ApiGen.mod_solver_imports
+     = [("import", ["numpy as np"]); ("._base", ["BaseGrid2D"; "BaseGrid3D"]); ("._fteik", ["solve2d"; "solve3d"]);
+        ("._grid", ["TraveltimeGrid2D"; "TraveltimeGrid3D"])]
+  /\ ApiGen.mod_solver_classes = ["Eikonal2D"; "Eikonal3D"].
+Proof. exact ApiGenEq.gen_module_surface. Qed.
+
 Print Assumptions C17_no_argument_is_updated_in_place_and_no_global_rebound.
 Print Assumptions C17_only_constructors_resample_smooth_assign_attributes.
 Print Assumptions C17_read_only_operations_listed.
+Print Assumptions C17_package_is_exactly_these_files.
+Print Assumptions C17_thread_helpers_only_forward_to_numba.
+Print Assumptions C17_package_exports.
+Print Assumptions C17_module_surface.
